@@ -30,8 +30,8 @@ type c06World struct {
 	insts    []*tracedDBI
 	viol     []string
 	events   int64
-	blocked  []*c06Block // reloads currently blocked, FIFO
-	all      []*c06Block // every block ever created
+	blocked  []*c06Block           // reloads currently blocked, FIFO
+	all      []*c06Block           // every block ever created
 	byPath   map[string]*tracedDBI // reload path -> the instance that reload created
 	scripted map[string]bool
 }
